@@ -85,6 +85,37 @@ def bounded(tier, seed):
             rnd.append(p)
     out.append(run_cases("random-groups", rnd, O.c16_check, knotted, "random knotted structures, groups of <=7 stems",
                          f"{len(rnd)} structures", sig=repr, relates="all_dot_brackets"))
+    # groups of 8 crossing stems (8! = 40320 orderings inside the library): a hub stem crossed by seven nested stems (star), a
+    # chain of eight stems each crossing the next (path), and a hub with a path hanging off it - shapes in which the greedy-stable
+    # assignments are few and depend on which stem comes first
+    def star(k, hub_first=True):
+        # hub (1 pair) crossing k nested leaves: positions  h l1..lk H Lk..L1   (h-H crosses every l-L)
+        n = 2 * k + 2
+        p = [0] * (n + 1)
+        p[1], p[k + 2] = k + 2, 1
+        for t in range(k):
+            a, b = 2 + t, n - t
+            p[a], p[b] = b, a
+        return tuple(p[1:])
+
+    def path(k):
+        # a1 a2 A1 a3 A2 a4 A3 ... : stem i crosses stems i-1 and i+1 only
+        order = ["a1"]
+        for i in range(2, k + 1):
+            order += [f"a{i}", f"A{i - 1}"]
+        order.append(f"A{k}")
+        pos = {name: i + 1 for i, name in enumerate(order)}
+        p = [0] * (len(order) + 1)
+        for i in range(1, k + 1):
+            p[pos[f"a{i}"]], p[pos[f"A{i}"]] = pos[f"A{i}"], pos[f"a{i}"]
+        return tuple(p[1:])
+    from gen.pairings import stretch
+    big = [star(7), stretch(star(7), [2, 3, 3, 3, 3, 3, 3, 3]), path(8)]
+    if tier != "quick":
+        big += [star(8), path(9)]
+    out.append(run_cases("eight-stem-groups", big, O.c16_check, knotted,
+                         "one connected group of 8 (thorough: 9) crossing stems - star and path conflict graphs - against the independent enumeration (level <= degree bound)",
+                         f"{len(big)} structures", sig=repr, relates="all_dot_brackets"))
     return out
 
 
